@@ -143,7 +143,7 @@ pub mod world {
     static WORLD: Mutex<Option<World>> = Mutex::new(None);
     static CHANGED: Condvar = Condvar::new();
     /// How long a quiescence wait may take before the worker is declared dead.
-    pub const WATCHDOG: Duration = Duration::from_secs(5);
+    pub const WATCHDOG: Duration = Duration::from_secs(30);
 
     pub fn reset(cfg: WorldCfg) {
         *WORLD.lock().unwrap_or_else(|e| e.into_inner()) =
